@@ -123,6 +123,17 @@ class C08(core.Check):
                 return m.start()
         return len(d.src)
 
+    @staticmethod
+    def end_by_par(rnd, d, src, at, end, n):
+        """the paragraph with the open formula may also be ended by \\par or by an environment that starts a new
+        paragraph, at a later top-level point before the next blank line"""
+        later = [q for q in d.safe_points if at < q < end]
+        if later and rnd.random() < .4:
+            q = rnd.choice(later) + n
+            brk = rnd.choice(['\\par ', '\\par\n', '\\begin{proof}\\end{proof}', '\\begin{minipage}{3cm}\\end{minipage}'])
+            return src[:q] + brk + src[q:], at, q + len(brk)
+        return src, at, end + n
+
     def inject(self, d, case):
         """-> (source, fault offset, swallow-end offset or None (= all following words must survive))"""
         rnd = random.Random(case['fs'])
@@ -147,11 +158,11 @@ class C08(core.Check):
         if f == 'inline':
             ins = rnd.choice(['$', '\\(']) + rnd.choice(['x+y ', 'a_1 ', '\\alpha ', 'f(x) ', 'x'])
             end = self.par_end(d, at)
-            return src[:at] + ins + rest, at, end + len(ins)
+            return self.end_by_par(rnd, d, src[:at] + ins + rest, at, end, len(ins))
         if f == 'display':
             ins = rnd.choice(['\\[', '$$', '\\begin{equation}', '\\begin{align*}', '\\begin{displaymath}']) + ' x=y '
             end = self.par_end(d, at)
-            return src[:at] + ins + rest, at, end + len(ins)
+            return self.end_by_par(rnd, d, src[:at] + ins + rest, at, end, len(ins))
         if f == 'verb':
             m = rest.find('\n')
             end = at + m if m >= 0 else len(src)
